@@ -88,6 +88,9 @@ class Gef:
                 else:
                     full = self.name((tgt.name if tgt is not None else nm))
                     args = [self.term(a, depth + 1, visiting) for a in v.args]
+                    perm = getattr(prog, '_arg_perm', {}).get(tgt.path) if tgt is not None else None
+                    if perm and len(perm) == len(args):
+                        args = [args[i] for i in perm]      # this copy's parameter order mapped onto the siblings' order
                     if nm in ('eq', 'ne') and len(args) == 2:
                         args = sorted(args)
                     # result of an effectful call is identified by its position among calls of that name
@@ -359,7 +362,11 @@ class Gef:
                             g3 = tuple(sorted(((subst(ct, argt), tr) for ct, tr in g2), key=str))
                             ev.append((c.point, kind2, subst(text2, argt), g3))
                     else:
-                        ev.append((c.point, 'call', '%s(%s)' % (self.name(tgt.name), ','.join(self.term(a) for a in c.args[1:]))))
+                        cargs = [self.term(a) for a in c.args]
+                        perm = getattr(prog, '_arg_perm', {}).get(tgt.path)
+                        if perm and len(perm) == len(cargs):
+                            cargs = [cargs[i] for i in perm]
+                        ev.append((c.point, 'call', '%s(%s)' % (self.name(tgt.name), ','.join(cargs[1:]))))
             elif prog.classify(c) == 'std':
                 from program import VEC_MUTATORS
                 if c.callee_name() in VEC_MUTATORS and c.args and (c.args[0].ty or '').startswith('&mut'):
